@@ -58,6 +58,7 @@ type HarnessResult struct {
 	ExecMs    int64          `json:"exec_ms"`
 	SolveMs   int64          `json:"solve_ms"`
 	FeasCalls int            `json:"feasibility_calls"`
+	Sched     int            `json:"schedule_vars,omitempty"`
 	Pruned    int            `json:"pruned_error_paths"`
 	RangeMap  []string       `json:"range_over_map,omitempty"`
 	Notes     []string       `json:"notes,omitempty"`
@@ -98,6 +99,7 @@ func main() {
 	seed := flag.Int64("seed", 0, "seed of the randomised witnesses")
 	timeout2 := flag.Int("timeout2", 20000, "per-query timeout of the cross-check solver (ms); unknown = not cross-checked")
 	fallback := flag.String("fallback", "", "solver an inconclusive query is retried on (portfolio)")
+	mapOrder := flag.Bool("maporder", false, "range over a map visits its entries in an arbitrary order (schedule variables), as Go randomises it")
 	doInit := flag.Bool("init", false, "execute the harness package's init (needed for level K globals)")
 	labels := flag.String("labels", "", "regexp: only obligations whose label matches are emitted (no-panic is always kept)")
 	flag.Parse()
@@ -201,7 +203,7 @@ func main() {
 		results = append(results, res)
 		e := &Engine{prog: prog, targets: targets, inited: map[*ssa.Package]bool{}, globals: map[*ssa.Global]*Obj{},
 			gheap: map[*Obj]Value{}, funcs: map[string]int{}, fnInstrs: map[string]int{}, stubs: map[string]int{},
-			stack: map[ssa.Instruction]int{}, unwind: *unwind, panicC: FalseT, strMax: *strMax, solverName: *feasSolver, prune: *prune,
+			stack: map[ssa.Instruction]int{}, unwind: *unwind, panicC: FalseT, strMax: *strMax, solverName: *feasSolver, prune: *prune, mapOrder: *mapOrder,
 			prefix: fmt.Sprintf("h%d_", hi), uf: map[string]*Term{}, splitMax: *splitMax, bounds: map[string]bool{}, optRecs: map[*Obj]*StructV{}}
 		if *summarize != "" {
 			e.summarize = regexp.MustCompile(*summarize)
@@ -284,6 +286,7 @@ func main() {
 		res.Funcs, res.FnInstrs, res.Stubs = e.funcs, e.fnInstrs, e.stubs
 		res.Instrs, res.Terms, res.Nondets, res.Asserts = e.ninstr, len(termList), len(e.nondets), len(e.asserts)
 		res.FeasCalls, res.RangeMap, res.Notes, res.Pruned = e.nfeas, e.rangeMap, e.notes, e.npruned
+		res.Sched = e.nsched
 		for b := range e.bounds {
 			res.Bounds = append(res.Bounds, b)
 		}
